@@ -6,6 +6,7 @@
   proofs in `HvProofs/Qcow2.lean`.
 -/
 import HvProofs.Qcow2
+import HvProofs.Qcow2Stream
 import HvProofs.Wide
 namespace Hv.C01
 open Hv Hv.Qcow2 Hv.Extracted.qcow2
@@ -160,6 +161,64 @@ theorem qcow2_read_correct_raw_backing (q : QCow2) (hc : Conformant q) (f : File
     (off len : Nat) (h : off + len ≤ q.size) : q.read off len = .ok (slice (q.guest f) off len) :=
   read_correct q hc f (by unfold BackingIs; rw [hb]; intro _ _; rfl) off len h
 
+/-! ### beyond the end of the disk: the reader is not clamped to `size`
+
+`QCow2._read` (and the model) never look at `size`: a request that runs past the end of the disk keeps walking
+the L1 / L2 tables (an L1 index beyond the L1 table = unallocated). `ConformantTo q lim` (Hv/Qcow2Stream.lean) is
+`Conformant` with the limit `lim` in place of `size`. -/
+
+/-- **qcow2_read_frame**: `_read` depends only on the file handles, the backing handle, `cluster_bits`, the
+    extended-L2 flag, the compression type, the cached L1 table and the inflater — not on `size`, `version`,
+    `header.l1_size`, `header.l1_table_offset` (the L1 bound is the length of the table in use) -/
+theorem qcow2_read_frame (q q' : QCow2) (h : q'.core = q.core) (off len : Nat) : q'.read off len = q.read off len :=
+  read_frame q q' h off len
+
+/-- **qcow2_read_correct_to**: the read theorem for every request inside `[0, lim)`, `lim` on either side of `size` -/
+theorem qcow2_read_correct_to (q : QCow2) (lim : Nat) (hc : ConformantTo q lim) (b : File) (hb : BackingIs q.backing b)
+    (off len : Nat) (h : off + len ≤ lim) : q.read off len = .ok (slice (q.guest b) off len) :=
+  read_correct_to q lim hc b hb off len h
+
+/-- `ConformantTo q lim` spelled out (`EntryOK (q.withSize lim) c` is `EntryOK q c` with "the host cluster lies inside
+    the data file" asked for the part of cluster `c` below `lim`) -/
+theorem qcow2_conformantTo_iff (q : QCow2) (lim : Nat) :
+    ConformantTo q lim ↔
+      HdrOK q ∧ q.l1 = .ok q.l1Table ∧
+      ∀ c, c * q.clusterSize < lim → c / q.l2n < q.l1Size → q.l2Off c ≠ 0 → EntryOK (q.withSize lim) c :=
+  conformantTo_iff q lim
+
+theorem qcow2_conformantTo_size (q : QCow2) : ConformantTo q q.size ↔ Conformant q := conformantTo_self q
+
+theorem qcow2_conformantTo_mono (q : QCow2) (lim lim' : Nat) (hc : ConformantTo q lim') (h : lim ≤ lim') :
+    ConformantTo q lim := hc.mono h
+
+/-- conformance up to the end of the last stream buffer implies `Conformant` (the hypothesis of `qcow2_read_correct`) -/
+theorem qcow2_conformantTo_conformant (q : QCow2) (align : Nat) (ha : 0 < align)
+    (hc : ConformantTo q (roundUp q.size align)) : Conformant q := hc.conformant ha
+
+theorem qcow2_conformantToB_sound (q : QCow2) (lim : Nat) (h : q.conformantToB lim = true) : ConformantTo q lim :=
+  conformantToB_sound q lim h
+
+/-- **qcow2_backendOK** (C08 T4): for a stream buffer of `align > 0` bytes (any size, not only sector multiples) and an
+    image whose tables are well-formed up to the end of the last buffer, `roundUp size align`, `QCow2.read` meets the
+    contract of the buffered layer: a buffer fill `read off align` at an aligned `off < size` succeeds — also when it
+    runs past the end of the disk — and starts with the content; aligned in-range requests return exactly the content. -/
+theorem qcow2_backendOK (q : QCow2) (align : Nat) (ha : 0 < align) (hc : ConformantTo q (roundUp q.size align))
+    (b : File) (hb : BackingIs q.backing b) : BackendOKAt q.size align q.read (q.guest b) :=
+  backendOKAt q align ha hc b hb
+
+/-- … and the contract for requests of *every* length (`BackendOK`), when the tables are well-formed as far as the
+    L1 table reaches -/
+theorem qcow2_backendOK_full (q : QCow2) (align : Nat) (hc : ∀ lim, ConformantTo q lim) (b : File)
+    (hb : BackingIs q.backing b) : BackendOK q.size align q.read (q.guest b) :=
+  backendOK_all q align hc b hb
+
+/-- **qcow2_stream_correct** (C08): every history of seek / read / readinto / readall / peek / readoffset / tell on a
+    freshly opened QCOW2 stream yields the outputs of the immutable-array specification over `guest` -/
+theorem qcow2_stream_correct (q : QCow2) (align : Nat) (ha : 0 < align) (hc : ConformantTo q (roundUp q.size align))
+    (b : File) (hb : BackingIs q.backing b) (ops : List Op) :
+    AS.run q.read (AS.init q.size align) ops = Spec.run (q.guest b) ⟨q.size, 0⟩ ops :=
+  stream_correct q align ha hc b hb ops
+
 /-- the Boolean checker the driver evaluates on every generated image implies `Conformant` -/
 theorem qcow2_conformantb_sound (q : QCow2) (h : q.conformantb = true) : Conformant q := conformantb_sound q h
 
@@ -186,6 +245,14 @@ def exQ : QCow2 :=
     inflate := fun _ _ => .error .other, backingName := none, exts := [], nbSnapshots := 0, snapshotsOffset := 0 }
 
 example : Conformant exQ := conformantb_sound exQ (by decide)
+/-- 1024-byte stream buffers: the last buffer fill reads `[1024, 2048)`, i.e. guest cluster 3, which lies entirely
+    beyond the disk (size 1500) — its L2 entry is checked too -/
+example : ConformantTo exQ (roundUp exQ.size 1024) := conformantToB_sound exQ _ (by decide)
+example : roundUp exQ.size 1024 = 2048 := by decide
+set_option maxRecDepth 100000 in
+example : AS.run exQ.read (AS.init exQ.size 1024) [.seek 510 .set, .read 4, .seek (-3) .end_, .read 10, .tell]
+    = [.pos 510, .data [UInt8.ofNat (2046 % 251), UInt8.ofNat (2047 % 251), 0, 0], .pos 1497, .data [0, 0, 0], .pos 1500] := by
+  decide
 example : exQ.read 510 4 = .ok [UInt8.ofNat (2046 % 251), UInt8.ofNat (2047 % 251), 0, 0] := by decide
 
 end Hv.C01
